@@ -54,4 +54,6 @@ def main(argv=None) -> int:
 
 
 if __name__ == "__main__":
-  sys.exit(main())
+  from .bigframe import run as _run_big
+
+  sys.exit(_run_big(main))
